@@ -278,6 +278,29 @@ def dictionary_case_pairs(ctx):
     ctx.count('dictionary case pairs', n)
 
 
+def name_then_keyword_pairs(ctx):
+    """EVERY dictionary word first used where the lexer types it as a NAME (in front of a parenthesis, in front of a dot) and then, in the same script, as
+    a keyword — in a casing the process has not seen before (random mixed case) against the all-upper spelling.  A per-spelling memo filled by the first
+    occurrence (an interned (value, normalized) pair, a cached classification) makes the later keyword inherit what was computed for the name: only a
+    spelling that is new to the process and occurs in both roles shows it."""
+    import props.C18 as C18
+    rng = ctx.rng
+    words = [w for w in C18.all_dictionary_words() if ' ' not in w and w.isalpha() and len(w) > 1]
+    words = [w for w in words if not any(tt in T.Operator and tt not in T.Operator.Comparison for tt, _ in lexer.tokenize(w))]
+    uses = ['select a from t where b = 1 %s 5', '%s into t values (1)', 'select a %s b from t', 'begin %s a then b; end %s; c; end', 'select a from t %s u on a = b where c = 1']
+    n = 0
+    for w in words:
+        mixed = ''.join(c.upper() if rng.random() < 0.5 else c.lower() for c in w)
+        if mixed in (w.upper(), w.lower()):
+            mixed = w[:1].lower() + w[1:-1].upper() + w[-1:].lower()
+        for use in (uses if not ctx.quick() else uses[:2] + rng.sample(uses[2:], 1)):
+            sh = 'select %s(1), %s.c from t0; ' + use
+            k = sh.count('%s')
+            compare_ci(ctx, sh % ((w.upper(),) * k), sh % ((mixed,) * k))
+            n += 1
+    ctx.count('name-then-keyword pairs', n)
+
+
 def scale_pairs(ctx):
     rng = ctx.rng
     modes = ['double', 'newline', 'crlf', 'lower'] if ctx.quick() else [m for m in MODES if m != 'canon']
@@ -295,6 +318,7 @@ def run(ctx):
     texts = []
     scale_pairs(ctx)
     dictionary_case_pairs(ctx)
+    name_then_keyword_pairs(ctx)
     # systematic part: scripts with the extra constructs, each compared with its canonical spelling under every deterministic mode
     g2 = grammar.Gen(rng, feat=C11_FEAT)
     nsys = 0
